@@ -186,6 +186,7 @@ def kindEq : TStep → TStep → Bool
   | .uint a, .uintTtl _ => a == 32
   | .name, .name => true
   | .endStr false, .tokStr => true
+  | .endStr false, .tokNE => true
   | .hexGroups 12 2 45 false, .euiTok 6 => true
   | .hexGroups 16 2 45 false, .euiTok 8 => true
   | .hexGroups 16 4 58 _, .nodeId => true
@@ -206,6 +207,7 @@ def matchPlans : List TStep → List TStep → Bool
   | [p, .blank, .endStr _], [q, .endStr _] => kindEq p q
   | [p, .blank, .endStrSplit n], [q, .endStr _] => kindEq p q && decide (0 < n)
   | [p, .typeList], [q, .typeList] => kindEq p q
+  | .salt :: .blank :: P, .saltNE :: .blank :: Q => matchPlans P Q
   | p :: .blank :: P, q :: .blank :: Q => kindEq p q && matchPlans P Q
   | _, _ => false
 
@@ -221,6 +223,7 @@ def FieldWF : TStep → TVal → Prop
   | .uintTtl _, .n v => v < 2 ^ 32
   | .name, .s t => ∃ ls, WireNameOK ls ∧ t = presentOf ls
   | .tokStr, .s t => RestWF' t
+  | .tokNE, .s t => RestWF' t
   | .euiTok g, .n v => v < 2 ^ (8 * g)
   | .nodeId, .n v => v < 2 ^ 64
   | .ipv4, .s a => a.length = 4
@@ -361,6 +364,13 @@ theorem field_word (p q : TStep) (v : TVal) (hk : kindEq p q = true) (hw : Field
     refine ⟨t, fun vs => by simp [printStep], ⟨hw.1, plain_wordOK t hw.2 hw.1⟩, ?_⟩
     intro tk ts Q acc ht he hval
     simp only [parsePlan, headTok, ht, he, hval, Bool.false_eq_true, false_or, ne_eq, not_true_eq_false, ↓reduceIte, List.tail_cons]
+  case endStr.tokNE u =>
+    cases u <;> simp only [kindEq, Bool.false_eq_true] at hk
+    cases v <;> simp only [FieldWF] at hw
+    rename_i t
+    refine ⟨t, fun vs => by simp [printStep], ⟨hw.1, plain_wordOK t hw.2 hw.1⟩, ?_⟩
+    intro tk ts Q acc ht he _hval
+    simp only [parsePlan, headTok, ht, he, hw.1, Bool.false_eq_true, or_self, ↓reduceIte, List.tail_cons]
   case hexGroups.euiTok d g sep up k =>
     cases v <;> simp only [FieldWF] at hw
     rename_i n
@@ -457,6 +467,9 @@ inductive Fits : List TStep → List TStep → List TVal → List TVal → Prop
       Fits [p, .blank, .endStr u] [q, .endStr u'] [v, .s t] [v, .s (normRest u t)]
   | lastSplit (p q : TStep) (v : TVal) (n : Nat) (u' : Bool) (t : Bytes) (hk : kindEq p q = true) (hw : FieldWF q v)
       (hn : 0 < n) (ht : RestWF t) : Fits [p, .blank, .endStrSplit n] [q, .endStr u'] [v, .s t] [v, .s t]
+  | consSalt (t : Bytes) (h : t = [] ∨ (RestWF t ∧ upperAscii t ≠ [45])) (P Q : List TStep) (vs vs' : List TVal)
+      (hf : Fits P Q vs vs') :
+      Fits (.salt :: .blank :: P) (.saltNE :: .blank :: Q) (.s t :: vs) (.s (if t = [] then [] else upperAscii t) :: vs')
   | types (p q : TStep) (v : TVal) (ts : List Nat) (hk : kindEq p q = true) (hw : FieldWF q v) (ht : ∀ t ∈ ts, t ≤ 65535) :
       Fits [p, .typeList] [q, .typeList] [v, .nl ts] [v, .nl ts]
   | cons (p q : TStep) (v : TVal) (P Q : List TStep) (vs vs' : List TVal) (hk : kindEq p q = true) (hw : FieldWF q v)
@@ -677,6 +690,35 @@ theorem text_roundtrip (P Q : List TStep) (vals vals' : List TVal) (hf : Fits P 
     have z3 : ¬ zBlank = zString := by decide
     simp only [parsePlan, endingToString, hbv1, hbe1, z2, z3, Bool.false_eq_true, ↓reduceIte]
     rw [hj, split_tokens n hn fuel t ht.2 zl1 hL1 rest []]
+    simp
+  | consSalt t h P Q vs vs' hf ih =>
+    have hword : Word (if t.isEmpty then [45] else upperAscii t) := by
+      rcases h with rfl | ⟨h, _⟩
+      · exact ⟨by decide, by decide⟩
+      · have hne : t.isEmpty = false := by cases t with | nil => exact absurd rfl h.1 | cons _ _ => rfl
+        rw [hne]
+        exact normRest_word true t h
+    obtain ⟨txt', hp', _⟩ := ih zl hL acc
+    obtain ⟨t1, b1, zl1, hs1, htk1, hte1, htv1, hbv1, hbe1, hL1⟩ :=
+      rdata_word_tokens zl (if t.isEmpty then [45] else upperAscii t) (txt' ++ 10 :: rest) hL hword
+    obtain ⟨txt2, hp2, hq2⟩ := ih zl1 hL1 (acc ++ [.s (if t = [] then [] else upperAscii t)])
+    have : txt2 = txt' := by rw [hp'] at hp2; exact (Option.some.inj hp2).symm
+    subst this
+    have hprint : printPlan (.salt :: .blank :: P) (.s t :: vs) = some ((if t.isEmpty then [45] else upperAscii t) ++ 32 :: txt2) := by
+      simp [printPlan, printStep, hp']
+    refine ⟨_, hprint, ?_⟩
+    rw [List.append_assoc, List.cons_append, hs1]
+    have hne : (if t.isEmpty then [45] else upperAscii t) ≠ [] := hword.1
+    have hval : (if (if t.isEmpty then [45] else upperAscii t) = [45] then [] else (if t.isEmpty then [45] else upperAscii t)) =
+        (if t = [] then [] else upperAscii t) := by
+      rcases h with rfl | ⟨h, hd⟩
+      · simp
+      · have hne1 : t.isEmpty = false := by cases t with | nil => exact absurd rfl h.1 | cons _ _ => rfl
+        have hne2 : t ≠ [] := h.1
+        simp [hne1, hne2, hd]
+    simp only [parsePlan, headTok, List.tail_cons]
+    simp only [htk1, hte1, hne, Bool.false_eq_true, or_self, ↓reduceIte, hval]
+    rw [hq2]
     simp
   | types p q v ts hk hw hts =>
     obtain ⟨w, hp, hword, hq⟩ := field_word p q v hk hw origin
